@@ -6,6 +6,7 @@ package gldap
 import (
 	"context"
 	"crypto/tls"
+	"errors"
 	"fmt"
 	"net"
 	"net/netip"
@@ -169,6 +170,7 @@ func (s *Server) Run(addr string, opt ...Option) error {
 	s.logger.Info("listening", "op", op, "addr", s.listener.Addr())
 
 	connID := 0
+	var acceptDelay time.Duration // how long to sleep on a temporary accept failure
 	for {
 		connID++
 		select {
@@ -183,8 +185,29 @@ func (s *Server) Run(addr string, opt ...Option) error {
 				s.logger.Debug("accept on closed conn")
 				return nil
 			}
+			var netErr net.Error
+			if errors.As(err, &netErr) && netErr.Temporary() { //nolint:staticcheck // same check net/http's Server uses
+				// e.g. running out of file descriptors: that's not a reason
+				// to stop serving. Back off a bit and try again.
+				switch {
+				case acceptDelay == 0:
+					acceptDelay = 5 * time.Millisecond
+				default:
+					acceptDelay *= 2
+				}
+				if max := 1 * time.Second; acceptDelay > max {
+					acceptDelay = max
+				}
+				s.logger.Error("temporary error accepting conn; retrying", "op", op, "err", err.Error(), "delay", acceptDelay)
+				select {
+				case <-s.shutdownCtx.Done():
+				case <-time.After(acceptDelay):
+				}
+				continue
+			}
 			return fmt.Errorf("%s: error accepting conn: %w", op, err)
 		}
+		acceptDelay = 0
 		s.logger.Debug("new connection accepted", "op", op, "conn", connID)
 		conn, err := newConn(s.shutdownCtx, connID, c, s.logger, s.router)
 		if err != nil {
